@@ -7,6 +7,11 @@ Correspondence, on exactly that domain: for every generated formula f of logic L
   (ii)  str(f) == the model's print, character by character (CTL: both notations),
   (iii) the model's parse of that string == the tree (ties the model's parser to the implementation's),
   (iv)  no two different trees of one logic share a printed form (grouped over everything generated).
+Atoms: besides ten fixed names, per logic a pool of identifier-style names the logic does NOT reserve: random ones,
+names containing keyword spellings in any case (isTrue, False_alarm, NOT, xUy), and the keywords of OTHER logics
+(E in LTL; A E X F G U R in PL).  Shapes: besides the small-depth enumeration, WIDE formulas (or/and with 4..150
+operands) and TALL formulas (spines of height 100..270, below what the library's own recursive printer and the
+harness's recursive readers can follow).
 CTL's compact notation ("AX p", "A(p U q)") is additionally given to the CTL parser and compared with the
 model's parse only: the property is about CTL* notation, both sides reject / misparse most of it."""
 from common import *
@@ -119,13 +124,47 @@ def build_items(R):
     for logic in PG.LANGS:
         for _ in range(n):
             items.append(('random', logic, PG.rand_formula(rng, logic, rng.choice((3, 4, 4, 5, 5)))))
+    # 4. identifier atoms: per logic a pool of names it does not reserve (risky hand-written ones, keywords of the other
+    #    logics, random names with embedded keyword spellings in any case); every name in every hole of every depth-1
+    #    tree (other holes: random names of the pool), and random formulas over the pool
+    pools = {}
+    for logic in PG.LANGS:
+        pool = PG.ident_pool(rng, logic, 80 if R.thorough else 30)
+        pools[logic] = pool
+        leaves = [('ap', a) for a in pool]
+        shs = list(PG.shapes(logic, 1))
+        if logic == 'CTL':
+            shs += PG.ctl_path_shapes(0)
+        if logic == 'LTL':
+            shs.append(('A', PG.HOLE))
+        for sh in shs:
+            k = PG.n_holes(sh)
+            for a in pool:
+                for i in range(k):
+                    ls = [rng.choice(leaves) for _ in range(k)]
+                    ls[i] = ('ap', a)
+                    items.append(('ident_depth1', logic, PG.fill(sh, iter(ls))))
+        for _ in range(8000 if R.thorough else 500):
+            items.append(('ident_random', logic, PG.rand_formula(rng, logic, rng.choice((2, 3, 3, 4)), aps=pool)))
+    # 5. wide: or / and with 4 and more operands (all arities 4..12, random ones up to 40, 64 and 150), at the root and nested
+    for logic in PG.LANGS:
+        aps = list(PG.ATOMS) + pools[logic][:20]
+        for _ in range(4 if R.thorough else 1):
+            for f in PG.wide_formulas(rng, logic, aps, n_random=24):
+                items.append(('wide', logic, f))
+    # 6. tall: spines of height 100..270.  The unchanged library's recursive __str__ raises RecursionError from height ~295 on
+    #    for chains of unary operators (measured, CPython 3.12, default limit), the harness's recursive readers from ~490
+    for logic in PG.LANGS:
+        hs = [101, 126, 130, 160, 200, 230, 251, 260, 270] + [rng.randint(100, 270) for _ in range(12 if R.thorough else 3)]
+        for h in hs:
+            items.append(('tall', logic, PG.spine(rng, logic, PG.ATOMS if rng.random() < 0.5 else pools[logic], h)))
     seen = set()
     out = []
     for st, logic, f in items:
         if (logic, f) not in seen:
             seen.add((logic, f))
             out.append((st, logic, f))
-    return out, nshapes
+    return out, nshapes, pools
 
 
 def model_cmds(logic, f, s, compact):
@@ -169,11 +208,52 @@ def check_one(logic, f, obs, outs):
     return bad, det
 
 
+def shape_stats(f):
+    """(largest arity, height), iteratively"""
+    ar, h, stack = 0, 0, [(f, 0)]
+    while stack:
+        g, d = stack.pop()
+        h = max(h, d)
+        if g[0] not in ('true', 'false', 'ap'):
+            ar = max(ar, len(g) - 1)
+            stack.extend((c, d + 1) for c in g[1:])
+    return ar, h
+
+
+def violation_data(st, logic, f, o, bad, det):
+    """replay data of one formula; tall trees go in as preorder token lists (PG.flat), not as deeply nested JSON"""
+    d = {'logic': logic, 'stream': st}
+    if PG._height_iter(f) > 40:
+        d['formula_flat'] = PG.flat(f)
+        txt = fstr(f)
+        d['formula_str'] = txt if len(txt) <= 400 else txt[:200] + ' ... ' + txt[-200:]
+    else:
+        d['formula'] = f
+        d['formula_str'] = fstr(f)
+    d.update({'printed': o[0], 'printed_compact': o[1], 'differs': bad})
+    d.update(PG.compact(det))
+    return d
+
+
+def formula_of(d):
+    if 'formula_flat' in d:
+        return PG.unflat(d['formula_flat'])
+    if isinstance(d, dict) and 'flat' in d:
+        return PG.unflat(d['flat'])
+    return detuple(d['formula'] if isinstance(d, dict) else d)
+
+
 def run(R):
     R.rule = ('formulas of each logic over the atoms {p,q,Ab,AX,orb,true_,_x1,Until,Rx,U2} and true/false, n-ary or/and with 2-3 operands: '
               'ALL formulas of depth <= 1 over all 12 leaves; ALL operator trees of depth <= 2 per logic (PL, LTL path formulas and A(path), '
               'all CTL* operator trees, CTL state formulas with quantifier+temporal pairs as one level and CTL path formulas) with leaves assigned '
               'by rotation (1 rotation + 1 random assignment per tree in quick, all 12 rotations + 4 random in thorough); random formulas of depth 3-5. '
+              'IDENTIFIER ATOMS: per logic a pool of names matching [a-zA-Z_][a-zA-Z_0-9]* that the logic itself does not reserve - hand-written risky '
+              'names (isTrue, False_alarm, TRUE, Not, OR, u, pUq, ...), every keyword of the OTHER logics (E in LTL; A E X F G U R in PL), random names '
+              'and random names with keyword spellings (true false not or and A E X F G U R True False, in any case) embedded - each name in each hole of '
+              'each depth-1 tree, and random formulas of depth 2-4 over the pool. WIDE: or/and with every arity 4..12, random arities 13..40, 64 and 150, '
+              'at the root and inside every kind of operator, also wide inside wide. TALL: spines of height 101,126,130,160,200,230,251,260,270 and random '
+              'heights in 100..270 per logic (unary operators, binary operators and n-ary connectives with the spine on either side; CTL: quantifier+temporal pairs). '
               'Compared per formula: tree and node languages of Parser()(str(f)) (CTL: str of the CTL* object of the same tree and of cast_to(CTLS), '
               'read by CTL.Parser and CTLS.Parser), str(f) vs model print, model parse of that text vs the tree; over all of them: one printed form '
               '-> one tree, per logic and notation (incl. CTL compact). non-trivial = formula with >= 2 operators, distinct by (logic, tree)')
@@ -181,7 +261,7 @@ def run(R):
     if sym:
         R.violation('operator spellings of the live modules differ from the ones the parser/printer model was proved for',
                     {'symbol_tables': sym}, no_input=True)
-    items, nshapes = build_items(R)
+    items, nshapes, pools = build_items(R)
     obs = PG.pmap(observe_chunk, [(logic, f) for (_, logic, f) in items])
     cmds, spans = [], []
     for (st, logic, f), o in zip(items, obs):
@@ -194,7 +274,7 @@ def run(R):
     outs = model_batch_parallel(cmds, jobs=PG.JOBS)
     printed = {}          # (logic, notation) -> text -> tree
     dist = {}
-    ops_hist = {}
+    ops_hist, ar_hist, h_hist = {}, {}, {}
     compact = {'accepted_same_tree': 0, 'accepted_other_tree': 0, 'rejected': 0}
     reported = 0
     sampled = {}
@@ -220,12 +300,16 @@ def run(R):
             soft = set(bad) <= {'print', 'print_compact', 'compact_parse_vs_model'}
             pend = pending_soft if soft else pending_hard
             if len(pend) < (10 if soft else 40):
-                pend.append(('print/parse round trip breaks: %s' % ','.join(bad),
-                             {'logic': logic, 'formula': f, 'formula_str': fstr(f), 'printed': o[0], 'printed_compact': o[1],
-                              'differs': bad, **det}, soft))
+                pend.append(('print/parse round trip breaks: %s' % ','.join(bad), violation_data(st, logic, f, o, bad, det), soft))
             continue
-        no = PG.n_ops(f)
+        no = PG.n_ops(f) if st != 'tall' else 12
         ops_hist[min(no, 12)] = ops_hist.get(min(no, 12), 0) + 1
+        if st in ('wide', 'tall') or st.startswith('ident'):
+            ar, hh = shape_stats(f)
+            ak = ar if ar < 13 else (40 if ar <= 40 else 41)
+            ar_hist[ak] = ar_hist.get(ak, 0) + 1
+            hk = '%d-%d' % (hh // 50 * 50, hh // 50 * 50 + 49) if hh >= 50 else '<50'
+            h_hist[hk] = h_hist.get(hk, 0) + 1
         if logic == 'CTL':
             c = o[2]
             compact['rejected' if c[0] != 'ok' else ('accepted_same_tree' if c[1] == f else 'accepted_other_tree')] += 1
@@ -240,6 +324,11 @@ def run(R):
     R.cov['distribution'] = dist
     R.cov['operators_per_formula'] = {('%d' % k if k < 12 else '12+'): v for k, v in sorted(ops_hist.items())}
     R.cov['shapes_depth2'] = nshapes
+    R.cov['identifier_pool_sizes'] = {L: len(v) for L, v in pools.items()}
+    R.cov['identifier_pool_examples'] = {L: v[-6:] for L, v in pools.items()}
+    R.cov['foreign_keywords_used_as_atoms'] = {L: [a for a in v if a in PG.KEYWORDS] for L, v in pools.items()}
+    R.cov['max_arity_histogram'] = {('%d' % k if k < 13 else '13-40' if k <= 40 else '41+'): v for k, v in sorted(ar_hist.items())}
+    R.cov['height_histogram'] = dict(sorted(h_hist.items()))
     R.cov['distinct_printed_forms'] = {'%s/%s' % k: len(v) for k, v in printed.items()}
     n_ctl = max(1, sum(compact.values()))
     R.cov['ctl_compact_notation_to_CTL_parser'] = dict(compact, accept_rate=round((n_ctl - compact['rejected']) / n_ctl, 4),
@@ -247,39 +336,44 @@ def run(R):
     R.exhaustive = False
 
 
+def _short(x, n=700):
+    t = x if isinstance(x, str) else repr(x)
+    return t if len(t) <= n else t[:n // 2] + ' ... ' + t[-n // 2:]
+
+
 def replay(R, data):
     d = data['data']
-    if 'formula' not in d:
+    if 'formula' not in d and 'formula_flat' not in d:
         print('no formula in this replay (proof gate / symbol tables):', json.dumps(d, default=str)[:2000])
         if PG.symbol_table_diffs():
             R.violation('replayed: symbol tables differ', d, no_input=True)
         return
-    f = detuple(d['formula'])
+    f = formula_of(d)
     logic = d['logic']
     o = observe_formula((logic, f))
-    print('formula        :', fstr(f))
-    print('impl str       :', repr(o[0]), '' if o[1] is None else ' compact: %r' % o[1])
+    print('formula        :', _short(fstr(f)))
+    print('impl str       :', _short(repr(o[0])), '' if o[1] is None else ' compact: %s' % _short(repr(o[1])))
     for P in PARSED_BY[logic]:
         if o[0] is not None:
-            print('impl parse %-4s:' % P, PG.observe(P, o[0]))
+            print('impl parse %-4s:' % P, _short(PG.observe(P, o[0])))
     if o[0] is None:
         print('impl           :', o[3])
         R.violation('replayed', d)
         return
     outs = model_batch(model_cmds(logic, f, o[0], o[1]))
-    print('model print    :', repr(str(outs[0])))
+    print('model print    :', _short(repr(str(outs[0]))))
     for P, a in zip(PARSED_BY[logic], outs[1:]):
-        print('model parse %-4s:' % P, PG.model_parse_result(a))
+        print('model parse %-4s:' % P, _short(PG.model_parse_result(a)))
     if logic == 'CTL':
-        print('compact: impl parse', o[2], ' model print %r parse %s' % (str(outs[-2]), PG.model_parse_result(outs[-1]),))
+        print('compact: impl parse', _short(o[2]), ' model print %s parse %s' % (_short(repr(str(outs[-2]))), _short(PG.model_parse_result(outs[-1])),))
     bad, det = check_one(logic, f, o, outs)
     other = d.get('same_text_as')
     if other:
-        g = detuple(other['other_tree'])
+        g = formula_of(other['other_tree'])
         o2 = observe_formula((logic, g))
-        print('other tree     :', fstr(g), '->', repr(o2[0]), repr(o2[1]))
+        print('other tree     :', _short(fstr(g)), '->', _short(repr(o2[0])), _short(repr(o2[1])))
         if g != f and (o2[0] == o[0] or (o[1] is not None and o2[1] == o[1])):
             bad.append('print_not_injective')
-    print('differs        :', bad, det)
+    print('differs        :', bad, _short(PG.compact(det), 3000))
     if bad:
         R.violation('replayed', d)
